@@ -69,6 +69,11 @@ def g3(F, X):
         # is the call guarded by `if !mute_errors { ... }`
         m = re.search(r"if\s*!\s*mute_errors\s*\{([^}]*)\}", fin)
         muted = not (m is not None and "sort_error_msgs_by_mem_pos" in m.group(1))
+        # stricter: the call stands at the top level of the function body -- inside no `if` / block at all -- and nothing returns before it
+        # (seed C15-H guarded it by another flag)
+        i = fin.find("sort_error_msgs_by_mem_pos")
+        depth = fin[:i].count("{") - fin[:i].count("}")
+        muted = muted and depth == 0 and not re.search(r"\breturn\b", fin[:i])
     F.add("error_sort_when_muted", "bool", muted, True,
           "error_stats.rs finalize_stats: is the error list sorted also when errors are muted")
 
